@@ -36,7 +36,10 @@ type c09Row struct {
 	Idx int32  `parquet:"idx"`
 	K   *int64 `parquet:"k"`
 	Src int32  `parquet:"src"`
+	Tag string `parquet:"tag"` // a byte-array payload naming the row: its memory belongs to the source
 }
+
+func c09Tag(src, idx int32) string { return fmt.Sprintf("row-%d-%d-of-the-input", src, idx) }
 
 func c09Sorting(sc *c09Scenario) parquet.SortingColumn {
 	var col parquet.SortingColumn = parquet.Ascending("k")
@@ -91,7 +94,7 @@ func c09Main(args []string) error {
 			}
 			for _, k := range in {
 				for j := 0; j < block; j++ {
-					row := c09Row{Src: int32(i), Idx: int32(idx)}
+					row := c09Row{Src: int32(i), Idx: int32(idx), Tag: c09Tag(int32(i), int32(idx))}
 					tok := k
 					if k != 0 {
 						x := int64(k)*1000 - 1500
@@ -283,9 +286,9 @@ func c09Main(args []string) error {
 				c09Schema = schema
 				readers := make([]parquet.RowReader, len(inputs))
 				for i := range inputs {
-					readers[i] = &c09Chunker{rows: inputs[i], schema: schema, chunk: 1 + r.intn(3)}
+					readers[i] = &c09Chunker{rows: inputs[i], schema: schema, chunk: []int{1, 2, 3, 5, 8, 24}[r.intn(6)], recycle: r.intn(2) == 1}
 				}
-				rows, err = readRows(parquet.MergeRowReaders(readers, schema.Comparator(sorting)), 3)
+				rows, err = readRows(parquet.MergeRowReaders(readers, schema.Comparator(sorting)), []int{3, 16, 64}[r.intn(3)])
 			})
 			emit("MergeRowReaders", rows, err, pan, msg)
 		}
@@ -312,23 +315,50 @@ func c09Decode(_ *parquet.Schema, row parquet.Row, x *c09Row) error {
 			x.Src = v.Int32()
 		case "idx":
 			x.Idx = v.Int32()
+		case "tag":
+			x.Tag = string(v.ByteArray())
 		}
+	}
+	if x.Tag != c09Tag(x.Src, x.Idx) { // the payload no longer belongs to the row: not one of the rows written
+		x.Idx = -1000 - x.Idx
 	}
 	return nil
 }
 
 // c09Chunker serves rows in small chunks (a RowReader whose ReadRows returns fewer rows than asked).
+// With recycle set, the byte arrays of the rows live in a buffer of the reader that is overwritten by the
+// next call, as the RowReader contract allows (rows are valid until the next ReadRows).
 type c09Chunker struct {
-	rows   []c09Row
-	schema *parquet.Schema
-	chunk  int
-	off    int
+	rows    []c09Row
+	schema  *parquet.Schema
+	chunk   int
+	off     int
+	recycle bool
+	scratch []byte
 }
 
 func (c *c09Chunker) ReadRows(rows []parquet.Row) (int, error) {
 	n := 0
+	if c.recycle {
+		for i := range c.scratch {
+			c.scratch[i] = '#'
+		}
+		c.scratch = c.scratch[:0]
+	}
 	for n < len(rows) && n < c.chunk && c.off < len(c.rows) {
 		rows[n] = c.schema.Deconstruct(rows[n][:0], &c.rows[c.off])
+		if c.recycle {
+			if cap(c.scratch) == 0 {
+				c.scratch = make([]byte, 0, 1<<16)
+			}
+			for j, v := range rows[n] {
+				if v.Kind() == parquet.ByteArray {
+					at := len(c.scratch)
+					c.scratch = append(c.scratch, v.ByteArray()...)
+					rows[n][j] = parquet.ByteArrayValue(c.scratch[at:len(c.scratch):len(c.scratch)]).Level(v.RepetitionLevel(), v.DefinitionLevel(), v.Column())
+				}
+			}
+		}
 		c.off++
 		n++
 	}
